@@ -564,6 +564,79 @@ pub fn gen_code(i: u64) -> Option<String> {
     tree::parse_ok(&out).map(|_| out)
 }
 
+
+// ------------------------------------------------------------------------------------------------
+// G-BODY: every context that wraps its body in *optional* delimiters × every breakable inner construct.
+// This is the mechanism C01 rests on (Mode tracking: a line break inside an expression is only legal where a
+// newline cannot end the statement), enumerated systematically instead of hoping a splice finds it.
+
+fn long_ident(r: &mut Rng, k: usize) -> String {
+    let base = ["alpha", "beta", "gamma", "delta", "epsilon", "zeta", "eta", "theta"][k % 8];
+    let reps = 1 + r.below(3);
+    format!("{}{}", base, "_long".repeat(reps))
+}
+
+fn inner_breakable(r: &mut Rng, which: usize) -> String {
+    let n = 2 + r.below(4);
+    let ids: Vec<String> = (0..n + 2).map(|k| long_ident(r, k)).collect();
+    match which % 16 {
+        0 => ids[..n].join(" + "),
+        1 => ids[..n].join(" and "),
+        2 => format!("{} == {} or {} != {}", ids[0], ids[1], ids[2], ids[3]),
+        3 => format!("{} - {} * {} / {}", ids[0], ids[1], ids[2], ids[3]),
+        4 => format!("{}.{}({}).{}({}).{}()", ids[0], ids[1], ids[2], ids[1], ids[3], ids[2]),
+        5 => format!("{}({}, {}, {}: {})", ids[0], ids[1], ids[2], ids[3], ids[1]),
+        6 => format!("{} = {}", ids[0], ids[1..n].join(" + ")),
+        7 => format!("{} += {}", ids[0], ids[1..n].join(" * ")),
+        8 => format!("-{}", ids[..n].join(" - ")),
+        9 => format!("not {}", ids[..n].join(" or ")),
+        10 => format!("return {}", ids[..n].join(" + ")),
+        11 => format!("if {} {{ {} }} else {{ {} }}", ids[0], ids[1], ids[2]),
+        12 => format!("{} in {} not in {}", ids[0], ids[1], ids[2]),
+        13 => format!("{} => {}", ids[0], ids[1..n].join(" + ")),
+        14 => format!("({}, {}).{}", ids[0], ids[1], ids[2]),
+        _ => format!("{} + {}.{}({}) - {}[{}]", ids[0], ids[1], ids[2], ids[3], ids[1], ids[2]),
+    }
+}
+
+pub const BODY_CONTEXTS: usize = 22;
+
+fn body_context(ctx: usize, inner: &str) -> String {
+    match ctx % BODY_CONTEXTS {
+        0 => format!("#let f = x => {}", inner),
+        1 => format!("#let f(x) = {}", inner),
+        2 => format!("#let v = {}", inner),
+        3 => format!("#for i in {} {{ i }}", inner),
+        4 => format!("#f(key: {})", inner),
+        5 => format!("#{{\n  let v = {}\n  v\n}}", inner),
+        6 => format!("#{{\n  {}\n}}", inner),
+        7 => format!("#show: it => {}", inner),
+        8 => format!("#show heading: {}", inner),
+        9 => format!("#set text(red) if {}", inner),
+        10 => format!("#(1, {})", inner),
+        11 => format!("#(key: {})", inner),
+        12 => format!("#f({})", inner),
+        13 => format!("#if {} {{ 1 }}", inner),
+        14 => format!("#while {} {{ 1 }}", inner),
+        15 => format!("#context {}", inner),
+        16 => format!("#let f = (x, y) => z => {}", inner),
+        17 => format!("#f(x => {})", inner),
+        18 => format!("text #({}) text", inner),
+        19 => format!("#{{\n  f(x => {})\n  g\n}}", inner),
+        20 => format!("$ #({}) $", inner),
+        _ => format!("#let g(x) = {{\n  if x {{ return }}\n  {}\n}}", inner),
+    }
+}
+
+pub fn gen_body(i: u64) -> Option<String> {
+    let mut r = Rng::new(i ^ 0x424f_4459);
+    let ctx = (i as usize) % BODY_CONTEXTS;
+    let which = (i as usize / BODY_CONTEXTS) % 16;
+    let inner = inner_breakable(&mut r, which);
+    let out = body_context(ctx, &inner);
+    tree::parse_ok(&out).map(|_| out)
+}
+
 pub fn all_gen_pools() -> Vec<Box<dyn Pool>> {
     let mk = |name: &str, f: fn(u64) -> Option<String>| -> Box<dyn Pool> {
         Box::new(GenPool { name: name.into(), n: GEN_N, f: Box::new(f) })
@@ -575,5 +648,6 @@ pub fn all_gen_pools() -> Vec<Box<dyn Pool>> {
         mk("G-TABLE", gen_table),
         mk("G-NEST", gen_nest),
         mk("G-CODE", gen_code),
+        mk("G-BODY", gen_body),
     ]
 }
